@@ -701,6 +701,15 @@ class Producer(object):
                 # retries every payload still listed) must not send it again
                 payloadsByTopicPart.pop(t_and_p, None)
 
+        # Only what failed stays listed for a retry: a later total failure of
+        # a retry (which retries every payload still listed) must not send
+        # anything else again - with req_acks=0 nothing is acknowledged, so the
+        # payloads handed to their connections would otherwise stay listed
+        failed_keys = [TopicAndPartition(p.topic, p.partition) for p, f in failed_payloads]
+        for t_and_p in list(payloadsByTopicPart):
+            if t_and_p not in failed_keys:
+                del payloadsByTopicPart[t_and_p]
+
         # Were there any failed requests to possibly retry?
         if failed_payloads:
             return _check_retry_payloads(failed_payloads)
